@@ -65,6 +65,25 @@ MUTATIONS = [
     ("c15-grow-counts-hatchery-only", "C15", "composite/factory.py",
      "missing_demand = target - sum(child.demand for child in self.children)",
      "missing_demand = target - sum(child.demand for child in self._hatchery if child.supply > 0)"),
+    ("c14-unknown-after-digest", "C14", "daemon/config/mapping.py",
+     "    unmatched = config_data.keys() - {plugin.section for plugin in plugins}\n    if unmatched:\n        raise ConfigurationError(\n            where=\"root\", what=\"unknown config sections %s\" % \", \".join(unmatched)\n        )\n    content = {}",
+     "    unmatched = config_data.keys() - {plugin.section for plugin in plugins}\n    content = {}"),
+    ("c14-before-as-after", "C14", "daemon/core/config.py",
+     "                dependencies[before].add(plugin.section)",
+     "                dependencies[plugin.section].add(before)"),
+    ("c14-required-ignored-when-decorated", "C14", "daemon/config/mapping.py",
+     "            if plugin.required:", "            if plugin.required and not plugin.before:"),
+    ("c14-falsy-result-dropped", "C14", "daemon/config/mapping.py",
+     "            if plugin_content is not None:", "            if plugin_content:"),
+    ("c16-logger-after-write", "C16", "decorator/logger.py",
+     "        self.target.demand = value\n\n    @property\n    def name",
+     "\n    @property\n    def name"),
+    ("c16-logger-logs-new-demand", "C16", "decorator/logger.py",
+     '"demand": self.target.demand,', '"demand": value,'),
+    ("c16-proxy-alloc-util", "C16", "interfaces/_proxy.py",
+     "        return self.target.allocation", "        return self.target.utilisation"),
+    ("c16-logger-skip-equal", "C16", "decorator/logger.py",
+     "        self._logger.log(\n            self.level,", "        if value != self.target.demand: self._logger.log(\n            self.level,"),
 ]
 
 
